@@ -457,6 +457,17 @@ func ruleC12(c *Ctx) {
 	if md != nil {
 		fname := shortFn(md.Root)
 		nSecond := 0
+		// the error result (the helper may also hand back the bytes it decoded)
+		errIdx := -1
+		for i, rs := 0, md.Root.Signature.Results(); i < rs.Len(); i++ {
+			if typeStr(rs.At(i).Type()) == "error" {
+				errIdx = i
+			}
+		}
+		if errIdx < 0 {
+			c.bad("C12-R4", fname, "error result", c.P.Pos(md.Root.Pos()), "maybeDeflate no longer returns an error")
+			errIdx = 0
+		}
 		for _, t := range md.Terms {
 			var fl, lim, ra *Event
 			var decs []*Event
@@ -566,10 +577,20 @@ func ruleC12(c *Ctx) {
 				}
 				errNil, k := t.eqFact(ra.Res[1], nilOf(nil))
 				c.check(k && errNil, "C12-R3", fname, "read error checked before decoding ["+maxAP+"]", c.P.InstrPos(d2.Instr), "ReadAll err == nil", "inflated data decoded although the read error is not known nil")
-				c.check(t.Kind == "return" && t.Vals[0].Key() == d2.Res[0].Key(), "C12-R4", fname, "second attempt's result returned unchanged ["+maxAP+"]", pos, "return decoder(deflated)", "returns "+ap(t.Vals[0]))
+				same := false
+				if t.Kind == "return" && errIdx < len(t.Vals) {
+					rv := t.Vals[errIdx]
+					same = rv.Key() == d2.Res[0].Key()
+					if isNilConst(rv) {
+						// `if err != nil { return err }; return nil` hands the decoder's verdict on just the same
+						eq, known := t.eqFact(d2.Res[0], nilOf(nil))
+						same = known && eq
+					}
+				}
+				c.check(same, "C12-R4", fname, "second attempt's result returned unchanged ["+maxAP+"]", pos, "return decoder(deflated)", "returns "+ap(t.Vals[errIdx]))
 			} else if t.Kind == "return" {
 				// rejecting without second decode: error non-nil
-				c.check(t.errNonNil(t.Vals[0]), "C12-R3", fname, "over-limit / read failure returns an error ["+maxAP+"]", pos, ap(t.Vals[0]), "path ends without decoding and without a non-nil error: "+ap(t.Vals[0]))
+				c.check(t.errNonNil(t.Vals[errIdx]), "C12-R3", fname, "over-limit / read failure returns an error ["+maxAP+"]", pos, ap(t.Vals[errIdx]), "path ends without decoding and without a non-nil error: "+ap(t.Vals[errIdx]))
 			}
 		}
 		c.count("C12-R3/second-decodes", nSecond)
